@@ -12,6 +12,31 @@
 using namespace VATA::MTBDDPkg;
 typedef OndriksMTBDD<unsigned> M;
 
+// explicit instantiations: every layer-1 function exists in the IR whether or not some caller still uses it
+typedef MTBDDNodePtr<unsigned> NPU;
+namespace VATA { namespace MTBDDPkg {
+template bool IsLeaf<NPU>(const NPU&);
+template bool IsInternal<NPU>(const NPU&);
+template bool IsNull<NPU>(NPU);
+template const unsigned& GetDataFromLeaf<NPU>(const NPU&);
+template const NPU::VarType& GetVarFromInternal<NPU>(NPU&);
+template const NPU::VarType& GetVarFromInternal<const NPU>(const NPU&);
+template NPU GetLowFromInternal<NPU>(const NPU&);
+template NPU GetLowFromInternal<NPU>(NPU&);
+template NPU GetHighFromInternal<NPU>(const NPU&);
+template NPU GetHighFromInternal<NPU>(NPU&);
+template NPU CreateLeaf<unsigned>(const unsigned&);
+template NPU CreateInternal<NPU>(NPU, NPU, const NPU::VarType&);
+template void IncrementRefCnt<NPU>(NPU);
+template const NPU::RefCntType& GetLeafRefCnt<NPU>(const NPU);
+template const NPU::RefCntType& GetRefCnt<NPU>(const NPU);
+template const NPU::RefCntType& DecrementLeafRefCnt<NPU>(NPU);
+template const NPU::RefCntType& DecrementInternalRefCnt<NPU>(NPU);
+template void DeleteLeafNode<NPU>(NPU);
+template void DeleteInternalNode<NPU>(NPU);
+template char classifyCase2<NPU, NPU>(const NPU&, const NPU&);
+}}
+
 extern "C" unsigned verif_op1(unsigned);
 extern "C" unsigned verif_op2(unsigned, unsigned);
 extern "C" unsigned verif_op3(unsigned, unsigned, unsigned);
